@@ -1,7 +1,6 @@
 """C15 - Baggage round-trips through its header; composite propagators apply every part."""
 import itertools, re
 from vcore import Case, Harness
-from props import c09, c16
 
 ID = 'C15'
 GEN = ['Hex', 'TraceState', 'B3', 'Baggage']
@@ -464,101 +463,68 @@ def oracle_bg(case, out):
 
 
 NAMES = [b'baggage', b'b3', b'traceparent', b'tracestate', b'uber-trace-id', b'X-B3-TraceId', b'X-B3-SpanId', b'X-B3-Sampled']
+CTX_RE = re.compile(r'span=<(.*)> bag=(\S+) same=([01])')
 
 
-def spec_part_inject(p, tid, sid, fl, ts, bag_entries):
-    """headers one propagator alone writes for the context"""
-    valid = tid is not None and tid != bytes(16) and sid != bytes(8)
-    smp = b'1' if (fl or 0) & 1 else b'0'
-    if p == 'bag':
-        h = spec_header(bag_entries)
-        return {b'baggage': h} if h else {}
-    if not valid:
-        return {}
-    t, s = tid.hex().encode(), sid.hex().encode()
-    if p == 'w3c':
-        d = {b'traceparent': b'00-' + t + b'-' + s + b'-%02x' % fl}
-        if ts:
-            d[b'tracestate'] = ts
-        return d
-    if p == 'b3s':
-        return {b'b3': t + b'-' + s + b'-' + smp}
-    if p == 'b3m':
-        return {b'X-B3-TraceId': t, b'X-B3-SpanId': s, b'X-B3-Sampled': smp}
-    if p == 'jg':
-        return {b'uber-trace-id': t + b':' + s + b':0:0' + smp}
-    raise ValueError(p)
-
-
-def spec_part_extract(p, car):
-    """(kind, value) one propagator alone extracts from the carrier: ('span', line) / ('bag', entries) / None"""
-    if p == 'w3c':
-        r = c09.spec_extract(car[b'traceparent'])
-        if r is None:
-            return None
-        ts = c09.canon_entries(car[b'tracestate'])
-        return ('span', f'tid={r[0].hex()} sid={r[1].hex()} fl={r[2]:02x} remote=1 ts=[{ts}]')
-    if p in ('b3s', 'b3m'):
-        r, _ = c16.spec_b3(car[b'b3'], car[b'X-B3-TraceId'], car[b'X-B3-SpanId'], car[b'X-B3-Sampled'])
-        return ('span', r) if r else None
-    if p == 'jg':
-        r, _ = c16.spec_jaeger(car[b'uber-trace-id'])
-        return ('span', r) if r else None
-    if p == 'bag':
-        es = spec_parse(car[b'baggage'])
-        return ('bag', es) if es else None
-    raise ValueError(p)
-
-
-def show_carrier(d):
-    return '[' + ','.join(f'{n.hex()}:{hx(d[n])}' for n in NAMES if n in d) + ']'
-
-
-def fold_extract(ps, car):
-    span, bag = 'none', None
-    for p in ps:
-        r = spec_part_extract(p, car)
-        if r is None:
-            continue
-        if r[0] == 'span':
-            span = r[1]
-        else:
-            bag = r[1]
-    same = span == 'none' and bag is None
-    return f'span=<{span}> bag={"none" if bag is None else show_entries(bag)} same={1 if same else 0}'
+def parse_carrier(s):
+    m = re.fullmatch(r'\[(.*)\]', s)
+    if not m:
+        return None
+    d = {}
+    if m.group(1):
+        for kv in m.group(1).split(','):
+            k, _, v = kv.partition(':')
+            d[bytes.fromhex(k)] = unhx(v)
+    return d
 
 
 def oracle_comp(case, out):
+    """the composite against its parts applied by hand (both observed on the implementation), plus what C15 itself says about
+    the baggage part and the empty composite.  What the individual trace propagators write / accept is C09's and C16's business."""
     t = case.line.split()
     ps = [] if t[2] == '-' else t[2].split(',')
-    if out.startswith('ERR') or out.startswith('installed-invalid'):
-        return ('callers-context-unchanged-or-valid-context', out)
     if out.startswith('FAULT'):
         return ('decode-never-out-of-bounds', out)
-    if t[1] in ('inject', 'rt'):
-        tid = None if t[3] == '-' else bytes.fromhex(t[3])
-        sid = None if t[3] == '-' else bytes.fromhex(t[4])
-        fl = None if t[3] == '-' else int(t[5], 16)
-        ts = unhx(t[6]); bag = spec_parse(unhx(t[7]))
-        car = {}
-        for p in ps:                                   # inject = every part, in order, same context
-            car.update(spec_part_inject(p, tid, sid, fl, ts, bag))
-        if t[1] == 'inject':
-            exp = show_carrier(car)
-            return None if out == exp else ('composite-injects-with-every-part', f'got {out[:400]} want {exp[:400]}')
-        full = {n: car.get(n, b'') for n in NAMES}
-        exp = fold_extract(ps, full)
-        return None if out == exp else ('composite-roundtrip', f'got {out[:400]} want {exp[:400]}')
-    if t[1] == 'extract':
-        vals = [unhx(x) for x in t[3:11]]
-        car = dict(zip([b'traceparent', b'tracestate', b'b3', b'X-B3-TraceId', b'X-B3-SpanId', b'X-B3-Sampled', b'uber-trace-id', b'baggage'], vals))
-        exp = fold_extract(ps, car)
-        if out != exp:
-            if not ps:
-                return ('empty-composite-is-identity', out)
-            return ('composite-extract-threads-the-context-in-order', f'got {out[:400]} want {exp[:400]}')
+    whole, sep, parts = out.partition(' parts=')
+    if not sep:
+        return ('composite-observation', out[:300])
+    for h in (whole, parts):
+        if h.startswith('ERR') or h.startswith('installed-invalid'):
+            return ('callers-context-unchanged-or-valid-context', h)
+    if t[1] == 'inject':
+        if whole != parts:
+            return ('composite-injects-with-every-part', f'composite {whole[:300]} / parts by hand {parts[:300]}')
+        car = parse_carrier(whole)
+        if car is None:
+            return ('composite-observation', whole[:300])
+        if not ps and car:
+            return ('empty-composite-is-identity', whole[:300])
+        bag = spec_header(spec_parse(unhx(t[7])))
+        want = bag if ('bag' in ps and bag) else None
+        if car.get(b'baggage') != want:
+            return ('baggage-header-injected-iff-nonempty', f'got {car.get(b"baggage")!r} want {want!r}')
         return None
-    return ('bad-case', out)
+    if whole != parts:
+        return ('composite-extract-threads-the-context-in-order', f'composite {whole[:300]} / parts by hand {parts[:300]}')
+    m = CTX_RE.fullmatch(whole)
+    if not m:
+        return ('composite-observation', whole[:300])
+    span, bag, same = m.group(1), m.group(2), m.group(3)
+    if not ps and whole != 'span=<none> bag=none same=1':
+        return ('empty-composite-is-identity', whole)
+    if (same == '1') != (span == 'none' and bag == 'none'):
+        return ('callers-context-unchanged-iff-nothing-extracted', whole)
+    if t[1] == 'extract':
+        hdr = unhx(t[10])
+    else:
+        hdr = spec_header(spec_parse(unhx(t[7])))          # what the baggage part injected
+    es = spec_parse(hdr) if 'bag' in ps else []
+    want = show_entries(es) if es else 'none'
+    if bag != want:
+        return ('baggage-extracted-iff-something-valid-remains', f'got bag={bag[:300]} want {want[:300]}')
+    if not any(p in ps for p in ('w3c', 'b3s', 'b3m', 'jg')) and span != 'none':
+        return ('no-trace-propagator-no-span', whole)
+    return None
 
 
 def oracle(case, out):
@@ -579,7 +545,7 @@ def nontrivial(case, out):
     if 'bad-op' in out:
         return False
     if case.line.startswith('comp '):
-        return case.line.split()[2] != '-' or 'extract' in case.line
+        return case.line.split()[2] != '-'
     return any(tok not in ('-',) for op in case.line[3:].split(' ; ') for tok in op.split()[1:])
 
 
